@@ -7,3 +7,4 @@ import OQuPyVerif.Model.ProtoQI
 import OQuPyVerif.Props.C06
 import OQuPyVerif.Props.C01
 import OQuPyVerif.Props.C18
+import OQuPyVerif.Props.C14
